@@ -1,11 +1,20 @@
 ----------------------------- MODULE TraceEncoder -----------------------------
 (* Validation of recorded MessageEncoder::encode executions against Encoder!SpecResult (C14). *)
 EXTENDS Encoder, Json, IOUtils, TLC, FiniteSets
+WL == INSTANCE WireLayout
 
 Rec == ndJsonDeserialize(IOEnv.TRACE)
 
+\* value lengths: given directly, or computed from the logical attributes by the reference layout
+TailLen(k) == IF k = "MessageIntegrity" THEN 20 ELSE IF k = "MessageIntegritySha256" THEN 32 ELSE 4
+LensOf(o) == IF o.use_attrs
+             THEN [i \in DOMAIN o.attrs |->
+                     IF o.attrs[i].kind \in {"MessageIntegrity", "MessageIntegritySha256", "Fingerprint"}
+                     THEN TailLen(o.attrs[i].kind)
+                     ELSE Len(WL!EncValue(o.attrs[i].kind, o.attrs[i].fields, o.txid))]
+             ELSE o.lens
 OkC14(o) ==
-    LET r == SpecResult(o.lens, o.buf) IN
+    LET r == SpecResult(LensOf(o), o.buf) IN
     /\ o.res = r.res
     /\ (r.res = "ok") => /\ o.size = r.size
                          /\ o.tail_ok          \* bytes beyond the returned size untouched
